@@ -1,6 +1,8 @@
 """C01 - Balance-sheet identity holds at every node of the tree"""
 from pyvc.runner import func
 
+UPDATE_ALL = [func("bt.core.StrategyBase.update", variant=v) for v in ("flat", "paper", "nested", "nested-paper")]
+
 ID = "C01"
 META = {
     "assumptions": ['A-REAL', 'A-COMM', 'A-T', 'A-IND', 'A-DATA-NONE', 'A-CYTHON', 'A-SOLVER', 'A-ENGINE'],
@@ -8,14 +10,14 @@ META = {
 }
 MANIFEST_ENTRY = {
     "level_text": "Deductive proof for all tree widths, prices, positions, capital, commission functions and spreads that update() establishes the three identities of the statement and the row/scalar agreement at the node it runs on, that every security class's update establishes value = position x price x multiplier, and that transact/adjust change exactly the fields their specs name.",
-    "level_note": "Reals not floats (A-REAL); inactive flat securities (skipped by the needupdate shortcut) are excluded from the sum, their |position| < 1e-16 is invariant W; update is currently verified for nodes without strategy children and not themselves paper-traded sub-strategies (variant 'flat'); whole-tree statement rests on modular recursion (A-IND) and tree invariant T (A-T).",
+    "level_note": "Reals not floats (A-REAL); inactive flat securities (skipped by the needupdate shortcut) are excluded from the sum, their |position| < 1e-16 is invariant W; whole-tree statement rests on modular recursion (A-IND) and tree invariant T (A-T).",
     "technique": "contract-based deductive verification: VCs from the real AST (pyvc) discharged by z3/cvc5; loop invariants with ghost sums; lemmas over contract clauses",
 }
 
 
 def tasks(tier, seed):
     return [
-        func("bt.core.StrategyBase.update", variant="flat"),
+        *UPDATE_ALL,
         func("bt.core.SecurityBase.update"),
         func("bt.core.FixedIncomeSecurity.update"),
         func("bt.core.CouponPayingSecurity.update"),
